@@ -64,7 +64,7 @@ PROTO_PAYLOADS = {0: "rule-based protocluster", 1: "sideloaded protocluster with
 SUB_PAYLOADS = {0: "subregion with label", 1: "sideloaded subregion with extra qualifiers"}
 CORE_TEXT = "PKS_KS"
 FREE_KEYS = ["db_xref", "EC_number", "inference", "function", "old_locus_tag", "organism", "mol_type", "strain",
-             "gene_synonym", "pseudo"]
+             "gene_synonym", "pseudo", "regulatory_class"]
 
 
 # ---- coordinates ----------------------------------------------------------------------------------------------
@@ -117,6 +117,15 @@ def skeleton_text(length: int, circ: bool, seed: int) -> str:
     source.qualifiers["strain"] = ["V1"]
     source.qualifiers["db_xref"] = ["taxon:1234567"]
     bio.features.append(source)
+    # generic features as annotated input files carry them (kept as plain Features with their notes and qualifiers)
+    misc = SeqFeature(FeatureLocation(length - 30, length - 4, -1), type="misc_feature")
+    misc.qualifiers["note"] = ["similar to a transposase; \"IS element\"", "possible pseudogene"]
+    misc.qualifiers["db_xref"] = ["PSEUDO:X12345.1"]
+    bio.features.append(misc)
+    regulatory = SeqFeature(FeatureLocation(SCALE + 5, SCALE + 11, 1), type="regulatory")
+    regulatory.qualifiers["regulatory_class"] = ["ribosome_binding_site"]
+    regulatory.qualifiers["note"] = ["RBS of the first gene"]
+    bio.features.append(regulatory)
     handle = io.StringIO()
     SeqIO.write([bio], handle, "genbank")
     return handle.getvalue()
